@@ -358,6 +358,18 @@ static void sc_res_gzip_multi_prep(void) {
     fd_op('c', NULL, 0);
 }
 
+/* header blocks that take the less common branches of REQ_HEADERS / RES_HEADERS: a pending header followed by a continuation line that carries its own
+   colon (taken as invalid folding: the pending header is replaced), folded lines appended to a pending header, repeated names merged, an empty header
+   name, a header line without colon, LF-only line ends */
+static void sc_odd_headers_prep(void) {
+    fd_sc_reset(); fd_sc.chunk = 23;
+    Q("POST /odd HTTP/1.1\r\nHost: h\r\nX-First: one\r\n X-Second: two\r\nX-Fold: a\r\n\tb\r\n c\r\nX-Rep: 1\r\nX-Rep: 2\r\nX-Rep: 3\r\n: empty\r\nNoColon\r\nContent-Length: 2\n\nok");
+    S("HTTP/1.1 200 OK\r\nX-First: one\r\n X-Second: two\r\nX-Fold: a\r\n\tb\r\n c\r\nX-Rep: 1\r\nX-Rep: 2\r\nX-Rep: 3\r\n: empty\r\nNoColon\r\nContent-Length: 2\n\nok");
+    Q("GET /odd2 HTTP/1.0\r\nA: b\r\n c: d\r\n\r\n");
+    S("HTTP/1.0 404 Nope\r\nA: b\r\n c: d\r\n\r\n");
+    fd_op('c', NULL, 0);
+}
+
 static void sc_pipeline_prep_common(void) {
     fd_sc.chunk = 97;
     Q("GET /1 HTTP/1.1\r\nHost: a\r\n\r\n"
@@ -620,6 +632,7 @@ static fd_scenario_t fd_scenarios[] = {
     { "chunked_put", sc_chunked_put_prep, fd_run_script },
     { "res_gzip", sc_res_gzip_prep, fd_run_script },
     { "res_gzip_multi", sc_res_gzip_multi_prep, fd_run_script },
+    { "odd_headers", sc_odd_headers_prep, fd_run_script },
     { "pipeline_auto", sc_pipeline_auto_prep, fd_run_script },
     { "pipeline_manual", sc_pipeline_manual_prep, fd_run_script },
     { "many_tx", sc_many_tx_prep, fd_run_script },
